@@ -68,7 +68,7 @@ fn main() {
     match prop {
         "C01" => engine::gen_c01(seed, thorough),
         "C02" => c02::gen(seed, thorough),
-        "C03" => c03::gen(seed, thorough),
+        "C03" => { c03::gen(seed, thorough); engine::gen_plumb(seed, "C03", thorough) }
         "C04" => { c04::gen(seed, thorough); engine::gen_tie_e2e(seed, "C04", thorough) }
         "C05" => { c05::gen_c05(seed, thorough); engine::gen_tie(seed, "C05", thorough); engine::gen_plumb(seed, "C05", thorough) }
         "VOC0" => voc::gen_raw(seed, thorough, false),
@@ -87,7 +87,7 @@ fn main() {
         "C17" => c17::gen(seed, thorough),
         "C18" => c18::gen(seed, thorough),
         "C19" => c19::gen_c19(seed, thorough),
-        "C20" => c20::gen(seed, thorough),
+        "C20" => { c20::gen(seed, thorough); engine::gen_plumb(seed, "C20", thorough) }
         _ => {
             eprintln!("unknown property {}", prop);
             std::process::exit(2);
